@@ -232,6 +232,23 @@ def r4_connective_is_quantifier(ctx):
         whole = any(isinstance(g, ast.comprehension) and src(g.iter).endswith(".types") for g in ast.walk(cg.node))
         n += 1
         ctx.ob(f"{cg.key}:connective", cg.loc(), f"{c.name}'s emitted check joins all member checks with `{conn}`", ok and whole, f"{c.name}.codegen joins its members with {joins}: the generated check is a different connective from isinstance()")
+        if conn == "or":
+            # `or` binds looser than the `and` that callers join checks with: the disjunction must be bracketed
+            tdef = [s for s in ast.walk(cg.node) if isinstance(s, ast.Assign) and any(isinstance(x, ast.Call) and isinstance(x.func, ast.Attribute) and x.func.attr == "join" for x in ast.walk(s.value))]
+            brack = False
+            for s in tdef:
+                v = s.value
+                consts = [x.value for x in ast.walk(v) if isinstance(x, ast.Constant) and isinstance(x.value, str)]
+                lm = rm = v
+                while isinstance(lm, ast.BinOp):
+                    lm = lm.left
+                while isinstance(rm, ast.BinOp):
+                    rm = rm.right
+                opens = isinstance(v, ast.BinOp) and isinstance(lm, ast.Constant) and str(lm.value).strip().startswith("(") and isinstance(rm, ast.Constant) and str(rm.value).strip().endswith(")")
+                each = any(k.strip() in ("({})",) for k in consts)
+                brack = brack or opens or each
+            n += 1
+            ctx.ob(f"{cg.key}:bracketed", cg.loc(), f"{c.name}'s emitted disjunction is bracketed (it is embedded in `and`-conjunctions by the intersection and by the per-argument guard)", brack, f"{c.name}.codegen emits `A or B` without brackets: joined with ` and ` by the caller it reads `A or (B and C)`, so a method runs although one of its other value conditions is false")
         for mname, fn in (("__instancecheck__", "isinstance"), ("__is_supertype__", "subclasscheck")):
             m = c.methods.get(mname)
             ctx.require(m is not None, f"{c.key} lost {mname}")
